@@ -1,0 +1,19 @@
+//go:build verif
+// +build verif
+
+// verif hook for property C15 (add-only, compiled only with -tags verif):
+// a BfeServer without listeners, and access to the unexported reload function.
+
+package bfe_server
+
+import (
+	"github.com/bfenetworks/bfe/bfe_config/bfe_conf"
+)
+
+func VerifC15NewServer() *BfeServer {
+	return NewBfeServer(bfe_conf.BfeConfig{}, "", "verif")
+}
+
+func (srv *BfeServer) VerifC15Reload(hostFile, vipFile, routeFile, clusterConfFile string) error {
+	return srv.serverDataConfReload(hostFile, vipFile, routeFile, clusterConfFile)
+}
